@@ -1,5 +1,5 @@
 # data for mkmanifest.py
-HOOK_COMMITS = ['fba6b35', '69c1f84']
+HOOK_COMMITS = ['fba6b35', '69c1f84', 'ee68f01']
 T = 'Coq proof over Gallina model + differential correspondence + oracle'
 Q = 'theorems on exact rationals, execution on binary32'
 CLAIMED = {
@@ -10,5 +10,6 @@ CLAIMED = {
     'C19': (T, Q + '; text fidelity proved for text_string / lines / escaping, placement from the generated alignment table', None),
     'C11': (T, Q, None),
     'C12': (T, Q, None),
+    'C13': (T, Q, None),
 }
 NA = {}
